@@ -135,6 +135,18 @@ def main2():
         nexp += len(fexp)
         fr, fiss = validate(fpath)
         states += fr.distinct
+        # ... and, thinner, statements in the middle of the blocks (every 7th of every block; the full enumeration belongs to C10):
+        # a block in which a statement failed is either rolled back as a whole or applied as a whole
+        mpath = crash_run(vh, fdoc, work, "fail-mid", [], 7 if tier == "quick" else 3, rnd.randrange(7), span=(3 if tier == "quick" else 0), mode="stmtfault")
+        mevs = [json.loads(l) for l in open(mpath)]
+        infra += sum(1 for e in mevs if e["ev"] == "Infra")
+        mexp = [e for e in mevs if e["ev"] == "FaultExp"]
+        nexp += len(mexp)
+        mr, _ = validate(mpath)
+        states += mr.distinct
+        for e in mexp:
+            e["_mid"] = True
+        fexp = fexp + mexp
         open_f = vlib.open_findings(PID)
         known = {}
         for e in fexp:
@@ -143,8 +155,8 @@ def main2():
                 if f:
                     known[f["id"]] = f
                     continue
-                issues.append(("fail-edges", 0, PID, "after a failed statement (event %s of block %s, %s) heights are not applied once each in order / ledger differs: %s"
-                               % (e["k"], e["h"], e.get("site"), e.get("diffTables")), fpath))
+                issues.append(("fail-mid" if e.get("_mid") else "fail-edges", 0, PID, "after a failed statement (event %s of block %s, %s) heights are not applied once each in order / ledger differs: %s"
+                               % (e["k"], e["h"], e.get("site"), e.get("diffTables")), mpath if e.get("_mid") else fpath))
         # ... and a block also fails when an upstream request of it fails: every request of one seeded block and every 4th of the others
         # (quick), every request of every block (thorough); the database must then hold whole blocks only and the resumed daemon must
         # reach the ledger of the uninterrupted run (the full request x statement enumeration belongs to C10)
@@ -177,6 +189,10 @@ def main2():
             shutil.copyfile(rpath, keep)
             json.dump(fdoc, open(keep + ".scenario.json", "w"))
             issues += rissues
+        if [i for i in issues if i[0] == "fail-mid"]:
+            keep = os.path.join(vlib.replay_dir(PID), "fail-mid-seed%d.ndjson" % seed)
+            shutil.copyfile(mpath, keep)
+            json.dump(fdoc, open(keep + ".scenario.json", "w"))
         if [i for i in issues if i[0] == "fail-edges"]:
             keep = os.path.join(vlib.replay_dir(PID), "fail-edges-seed%d.ndjson" % seed)
             shutil.copyfile(fpath, keep)
